@@ -497,7 +497,9 @@ func genC15(t *rapid.T) c15Case {
 	u32 := rapid.OneOf(rapid.Uint32Range(0, 300), rapid.SampledFrom([]uint32{0, 1, 2, 255, 256, 257, 65535, 65536, 65537, 65538, 1<<32 - 1}), rapid.Uint32())
 	c.Chain = u32.Draw(t, "chain")
 	c.CL = u32.Draw(t, "cl")
-	c.Module = rapid.SampledFrom([]string{"TokenBridge", "TokenBridge", "TokenBridge", "NFTBridge", "", "Core", "TokenBridgeTokenBridgeTokenBridge12", "a-module-name-that-is-way-longer-than-thirty-two-bytes", "01234567890123456789012345678901"}).Draw(t, "module")
+	c.Module = rapid.SampledFrom([]string{"TokenBridge", "TokenBridge", "TokenBridge", "NFTBridge", "", "Core", "TokenBridgeTokenBridgeTokenBridge12", "a-module-name-that-is-way-longer-than-thirty-two-bytes", "01234567890123456789012345678901",
+		// at most 32 characters but more than 32 bytes, and exactly 32 bytes in fewer characters
+		"ééééééééééééééééé", "TokenBridge€€€€€€€€", "éééééééééééééééé", "TokenBridge\x00\x00\x00"}).Draw(t, "module")
 	switch c.Kind {
 	case 1:
 		c.H1 = genHex(t, "h1", 32)
